@@ -620,7 +620,7 @@ func c05Spaces(c *fw.Ctx) {
 			}
 		})
 
-	c.Space("type-codes", "all 65536 type codes: the numeric spelling TYPEnnn and, where the library has one, the mnemonic denote the same code; an unknown type prints as TYPEnnn with \\# rdata and re-parses to the same octets; every registered type written in the RFC 3597 generic form (\\# len hex of its default RDATA, also in upper-case hex digits split into two words) parses to the same record as its typed form; a line that ends with its type (RDATA-less form; line break, next line, glued or separate comment behind it) reads the same with the mnemonic and with TYPEnnn; non-trivial: the code has a mnemonic", true,
+	c.Space("type-codes", "all 65536 type codes: the numeric spelling TYPEnnn and, where the library has one, the mnemonic denote the same code; an unknown type prints as TYPEnnn with \\# rdata and re-parses to the same octets; every registered type written in the RFC 3597 generic form (\\# len hex of its default RDATA, also in upper-case hex digits split into two words) parses to the same record as its typed form; RDATA with surplus octets behind it in the generic form is refused where the type's wire format refuses it; a line that ends with its type (RDATA-less form; line break, next line, glued or separate comment behind it) reads the same with the mnemonic and with TYPEnnn; non-trivial: the code has a mnemonic", true,
 		func(emit func(func(*fw.R))) {
 			for code := 0; code < 65536; code++ {
 				t := uint16(code)
@@ -707,6 +707,26 @@ func c05Spaces(c *fw.Ctx) {
 							}
 						}
 					}
+					if s != nil {
+						// "any type may be written in the generic form with the same result": RDATA that the wire format of the
+						// type does not allow (one octet, or a copy of the RDATA, behind the default RDATA) gives no record in the
+						// generic form either, where the reference decoder of the type refuses it; where it is data of the
+						// last field, the record carries it
+						for _, extra := range [][]byte{{0}, {0xff, 0x01}, rd} {
+							rd2 := append(append([]byte(nil), rd...), extra...)
+							if len(rd2) > 60000 {
+								continue
+							}
+							d := &wire.Decoder{Msg: rd2, LabelStarts: map[int]bool{}}
+							_, derr := d.DecodeRdata(s, 0, len(rd2))
+							line := fmt.Sprintf("host.example. 7 IN %s \\# %d %x", num, len(rd2), rd2)
+							rr, err := dns.NewRR(line)
+							if derr != nil && err == nil && rr != nil {
+								r.Fail("type-code/generic-form-surplus-accepted", "NewRR(%q) = %q although these octets are no RDATA of type %s (reference decoder: %v): the generic form reads what the wire format refuses", clipStr(line, 300), clipStr(rr.String(), 200), mn, derr)
+							}
+							r.Count("generic forms with surplus octets", 1)
+						}
+					}
 					if t%257 == 0 || s != nil {
 						// RFC 3597 §5: the announced length must match the hex data
 						for _, d := range []int{-1, 1} {
@@ -784,4 +804,11 @@ func c05Sibling(t uint16) string {
 	}
 	c05SiblingCache[t] = out
 	return out
+}
+
+func clipStr(s string, n int) string {
+	if len(s) > n {
+		return s[:n] + "…"
+	}
+	return s
 }
